@@ -3,6 +3,7 @@
 package finalizers
 
 import (
+	"math"
 	"bytes"
 	"context"
 	"crypto"
@@ -549,6 +550,11 @@ func c16Sim(r *simcore.Run) {
 	}
 	// the same subject may come through both rules: what is cached for it under one rule is not what the other hands out
 	sameSubject := s.Draw(3, "same-subject") == 2
+	// attributes an identity document may carry which JSON cannot represent (a number beyond float64 arrives as +Inf)
+	attrs := map[string]any{}
+	if s.Draw(4, "attributes-beyond-json") == 3 {
+		attrs = map[string]any{"credit_limit": math.Inf(1)}
+	}
 	for t := 0; t < nSign; t++ {
 		t := t
 		n := 2 + s.Draw(3, "n-sign")
@@ -568,7 +574,7 @@ func c16Sim(r *simcore.Run) {
 					op.kind = "sign2"
 					op.ttl, op.role = ttl, ""
 				}
-				op.err = f.Execute(hc, &subject.Subject{ID: subj, Attributes: map[string]any{}})
+				op.err = f.Execute(hc, &subject.Subject{ID: subj, Attributes: attrs})
 				op.ret = sch.Stamp()
 				op.t1 = time.Now().Unix()
 				if t == 1 && jf2 != nil {
